@@ -488,7 +488,7 @@ def _fork_batch(batch, both):
 BATCH = int(os.environ.get('PYVC_SOLVER_BATCH', '12'))
 
 
-def discharge_all(obs, both=False, threads=None):
+def discharge_all(obs, both=False, threads=None, stop_on_failure=False):
     """discharge obligations in forked children (<= threads at a time, a batch of obligations per child) with a
     hard wall-clock limit per obligation: a solver that ignores its timeout is killed and the obligation is undecided"""
     threads = threads or int(os.environ.get('PYVC_SOLVER_PROCS', '4'))
@@ -526,6 +526,22 @@ def discharge_all(obs, both=False, threads=None):
                 _apply(batch[item[5]], res)
                 item[5] += 1
                 item[3] = time.time()
+                if stop_on_failure and res.get('status') == 'failed':
+                    # a canary mutant is decided by its first failed obligation: the rest is not attempted
+                    for it2 in running:
+                        try:
+                            os.kill(it2[1], 9)
+                            os.system("pkill -9 -P %d >/dev/null 2>&1" % it2[1])
+                            os.close(it2[2])
+                            os.waitpid(it2[1], 0)
+                        except OSError:
+                            pass
+                        for ob_ in it2[0][it2[5]:]:
+                            if ob_.status is None:
+                                _apply(ob_, {'status': 'undecided', 'backend': None, 'reason': 'not attempted: the mutant is already refuted', 'secs': 0.0})
+                    for ob_ in pending:
+                        _apply(ob_, {'status': 'undecided', 'backend': None, 'reason': 'not attempted: the mutant is already refuted', 'secs': 0.0})
+                    return
             if item[5] >= len(batch) or eof:
                 os.close(fd)
                 try:
@@ -927,7 +943,7 @@ def verify_unit(c, mutate=None, do_cross=True, cross_n=40, seed=0, both=False, r
         res.contracts_used = getattr(x, 'contracts_used', set())
         res.lemmas_used = getattr(x, 'lemmas_used', set())
         res.unsupported = [{'trace': [t for t in tr[-6:]], 'reason': r} for tr, r in x.unsupported]
-        discharge_all(list(x.obligations.values()), both=both)
+        discharge_all(list(x.obligations.values()), both=both, stop_on_failure=mutate is not None)
         for ob in x.obligations.values():
             res.solver_secs += ob.secs
             d = {'id': ob.oid, 'clause': ob.clause, 'kind': ob.kind, 'label': ob.label, 'status': ob.status, 'backend': ob.backend,
